@@ -9,6 +9,7 @@ import networkx as nx
 
 VAL = {'C': 4, 'N': 3, 'O': 2, 'S': 2, 'P': 3, 'F': 1, 'Cl': 1, 'Br': 1}
 SYM = {0: '.', 1: '', 2: '=', 3: '#', 4: '$', 1.5: ''}
+DSYM = {**SYM, 1.5: ':'}     # in front of a bonding descriptor the aromatic symbol is written out
 
 
 def rnd_mol(rng, n, aromatic_p=0.3, charged_p=0.1, pyrrole_p=0.0, biaryl_p=0.0, thio_p=0.0, hetero_p=0.0):
@@ -176,7 +177,7 @@ def render_frag(rng, g, nodes, desc, atom_text=None, anno_p=0.0):
     def dstr(n):
         s = ''
         for (txt, o) in desc.get(n, []):
-            s += SYM[o] + '[' + txt + ']'
+            s += DSYM[o] + '[' + txt + ']'
         return s
     opened = set()
 
@@ -206,7 +207,7 @@ def render_frag(rng, g, nodes, desc, atom_text=None, anno_p=0.0):
         after = (nbr if rng.random() < 0.5 else rng.randint(1, nbr)) if (late and nbr >= 1) else None
         if u == start and d and after is None and rng.random() < 0.25:
             # the first atom's descriptors written in front of it: '[$]=C...' (the order symbol follows the descriptor)
-            s = ''.join('[' + txt + ']' + SYM[o] for (txt, o) in desc.get(u, [])) + s + rs
+            s = ''.join('[' + txt + ']' + DSYM[o] for (txt, o) in desc.get(u, [])) + s + rs
         elif after is None:
             if d and rs and rng.random() < 0.5:
                 s += d + rs
@@ -321,7 +322,7 @@ def render_base(rng, base, names, virtual=0):
     return '{' + out + '}', order_of_appearance
 
 
-def cut_description(rng, g, nfrag, kinds=('$', '><'), share_p=0.0, label_p=1.0, anno_p=0.0):
+def cut_description(rng, g, nfrag, kinds=('$', '><'), share_p=0.0, label_p=1.0, anno_p=0.0, arom_sym_p=0.0):
     """fragment `g` into `nfrag` connected fragments; every cut bond becomes a uniquely labelled pair
     of complementary descriptors carrying the bond's order (1 for aromatic bonds), or — with
     probability share_p — is replaced by sharing its end atom (squash operator)."""
@@ -344,6 +345,9 @@ def cut_description(rng, g, nfrag, kinds=('$', '><'), share_p=0.0, label_p=1.0, 
         lab += 1
         L = 'L%d' % lab if rng.random() < label_p else ''
         oo = 1 if (o == 1.5 or g.edges[a, b].get('pyrrole_ring')) else o
+        if arom_sym_p and o == 1.5 and not g.edges[a, b].get('pyrrole_ring') \
+                and not (g.nodes[a].get('kekule') or g.nodes[b].get('kekule')) and rng.random() < arom_sym_p:
+            oo = 1.5        # the cut aromatic bond written with its symbol on both sides: 'c:[$]'
         if rng.random() < share_p:
             # fragment of `a` gets a copy b' of b, bonded to a; b' and b carry the '!' pair
             bp = len(ext)
@@ -402,7 +406,8 @@ def graph_to_json(g):
 
 
 def cut_case(rng, nmin=3, nmax=12, share_p=0.0, virtual=0, aromatic_p=0.25, label_p=1.0,
-             kinds=('$', '><'), anno_p=0.0, pyrrole_p=0.0, biaryl_p=0.0, kekule_p=0.0, thio_p=0.0, charged_p=0.1, hetero_p=0.0):
+             kinds=('$', '><'), anno_p=0.0, pyrrole_p=0.0, biaryl_p=0.0, kekule_p=0.0, thio_p=0.0, charged_p=0.1, hetero_p=0.0,
+             arom_sym_p=0.0):
     """one C01-style case: a molecule, the uncut description and a cut description"""
     while True:
         g = rnd_mol(rng, rng.randint(nmin, nmax), aromatic_p=aromatic_p, pyrrole_p=pyrrole_p, biaryl_p=biaryl_p, thio_p=thio_p,
@@ -417,7 +422,8 @@ def cut_case(rng, nmin=3, nmax=12, share_p=0.0, virtual=0, aromatic_p=0.25, labe
                     g.nodes[n]['kekule'] = True
                 kekule = True
         nf = rng.randint(1, min(5, len(g)))
-        base, frag_text, part, nshared = cut_description(rng, g, nf, kinds=kinds, share_p=share_p, label_p=label_p, anno_p=anno_p)
+        base, frag_text, part, nshared = cut_description(rng, g, nf, kinds=kinds, share_p=share_p, label_p=label_p, anno_p=anno_p,
+                                                        arom_sym_p=arom_sym_p)
         if base.number_of_edges() and max(o for *_, o in base.edges(data='order')) > 4:
             continue
         if kekule and any(part[a] != part[b] for a, b, d in g.edges(data=True) if 'kek' in d):
